@@ -135,12 +135,17 @@ Section RunThm.
   Variable rfacts : bool.
   Hypothesis Hsites : forallb site_ok sites = true.                 (* every memoisation site is keyed by identity/value, values unmodified *)
   Hypothesis Hstores : forallb (store_ok rfacts) stores = true.     (* every render-phase store is reset per file / per call / a memo *)
-  Variable render : ambient -> N -> option str -> tyobj -> prog.
+  Variable reads : list wread.
+  Hypothesis Hreads : forallb read_ok reads = true.                 (* every read beyond a type's closure is accounted for *)
+  Variable render : ambient -> list (list N) -> N -> option str -> tyobj -> prog.
   (* NAMED PREMISE: which program a template is does not depend on the process state -- rendering consults the process only
      through unique names, memoised callables and inventoried long-lived attributes (the operations of `prog`) *)
-  Hypothesis render_pure : forall (a1 a2 : ambient) cf tmpl o, render a1 cf tmpl o = render a2 cf tmpl o.
+  Hypothesis render_pure : forall (a1 a2 : ambient) I cf tmpl o, render a1 I cf tmpl o = render a2 I cf tmpl o.
   Variable cfun : ckey -> str.
   Variable maxsize : option nat.
+
+  Lemma reads_no_leak : reads_leak reads = false.
+  Proof. unfold reads_leak. rewrite Hreads. reflexivity. Qed.
 
   Definition amb0 : ambient := (UniqueNameGenerator_init, [], [], [], []).
 
@@ -203,11 +208,11 @@ Section RunThm.
 
   Variable lel_shared : bool.
 
-  Notation gen_file := (gen_file bases cname fuel sites stores rfacts render cfun maxsize true lel_shared).
-  Notation alone := (alone bases cname fuel sites stores rfacts render cfun maxsize true lel_shared).
+  Notation gen_file := (gen_file bases cname fuel sites stores rfacts reads render cfun maxsize true lel_shared).
+  Notation alone := (alone bases cname fuel sites stores rfacts reads render cfun maxsize true lel_shared).
 
   Definition pure_chunks (cf : N) (tmpl : option str) (o : tyobj) : list str :=
-    snd (prog_out cf (render amb0 cf tmpl o) UniqueNameGenerator_init).
+    snd (prog_out cf (render amb0 [] cf tmpl o) UniqueNameGenerator_init).
 
   (* what a file must be: selected template and text as a function of (configuration, listing, type object, processors) *)
   Definition file_spec (cf : N) (ts : list (str * str)) (ps : list pp) (o : tyobj) : list pp * (option str * str) :=
@@ -218,18 +223,18 @@ Section RunThm.
   (* with reset() in place the file, the template chosen for it and the processor state after it are a function of
      (configuration, template listing, type object, processor state before) -- not of the unique-name state, not of the
      memo tables, not of the loader memo *)
-  Lemma gen_file_spec cf ts memo u c ps sc o :
+  Lemma gen_file_spec cf ts I memo u c ps sc o :
     cache_ok cfun c -> memo_ok ts memo ->
-    let r := gen_file cf ts memo u c ps sc o in
+    let r := gen_file cf ts I memo u c ps sc o in
     memo_ok ts (fst (fst (fst (fst r)))) /\ cache_ok cfun (snd (fst (fst r))) /\
     (snd (fst r), snd r) = file_spec cf ts ps o.
   Proof.
     intros Hc Hm. unfold GenState.gen_file, file_spec, pure_chunks.
     destruct (select_transparent ts memo (obj_cls o) Hm) as [Hs Hm1].
     destruct (select bases cname fuel ts memo (obj_cls o)) as [memo1 tmpl]. cbn [fst snd] in Hs, Hm1. subst tmpl.
-    rewrite stores_no_leak. rewrite (render_pure (u, c, memo, ps, sc) amb0).
-    destruct (run_prog_transparent cf (render amb0 cf (spec_select ts (obj_cls o)) o) UniqueNameGenerator_init c Hc) as [H1 H2].
-    destruct (run_prog [] cf (render amb0 cf (spec_select ts (obj_cls o)) o) UniqueNameGenerator_init c) as [[u1 c1] chunks].
+    rewrite stores_no_leak, reads_no_leak. rewrite (render_pure (u, c, memo, ps, sc) amb0).
+    destruct (run_prog_transparent cf (render amb0 [] cf (spec_select ts (obj_cls o)) o) UniqueNameGenerator_init c Hc) as [H1 H2].
+    destruct (run_prog [] cf (render amb0 [] cf (spec_select ts (obj_cls o)) o) UniqueNameGenerator_init c) as [[u1 c1] chunks].
     cbn [fst snd] in *. rewrite <- H1. cbn [snd].
     destruct (write_file (if lel_shared then ps else map pp_fresh ps) chunks) as [ps1 text]. cbn [fst snd].
     split; [exact Hm1|]. split; [exact H2|reflexivity].
@@ -238,7 +243,7 @@ Section RunThm.
   Lemma alone_spec cf ts pps0 o : alone cf ts pps0 o = snd (file_spec cf ts pps0 o).
   Proof.
     unfold GenState.alone.
-    destruct (gen_file_spec cf ts [] UniqueNameGenerator_init [] pps0 [] o (Forall_nil _) (LookupThm.consistent_nil _ _)) as (_ & _ & H).
+    destruct (gen_file_spec cf ts [] [] UniqueNameGenerator_init [] pps0 [] o (Forall_nil _) (LookupThm.consistent_nil _ _)) as (_ & _ & H).
     rewrite <- H. reflexivity.
   Qed.
 
@@ -273,7 +278,7 @@ Section RunThm.
     e_tmpl e = spec_select (e_tset e) (obj_cls (e_obj e)) /\
     ((lel_shared = false \/ e_clean e = true) -> (e_tmpl e, e_text e) = alone (e_cfg e) (e_tset e) (e_pps0 e) (e_obj e)).
 
-  Notation run_types := (run_types U bases cname fuel sites stores rfacts render cfun maxsize true lel_shared).
+  Notation run_types := (run_types U bases cname fuel sites stores rfacts reads render cfun maxsize true lel_shared).
 
   Lemma run_types_ok cf ts ins order : forall memo u c ps sc,
     cache_ok cfun c -> memo_ok ts memo ->
@@ -283,8 +288,8 @@ Section RunThm.
     induction order as [|k order IH]; intros memo u c ps sc Hc Hm; cbn [GenState.run_types].
     - cbn [fst snd]. repeat split; [exact Hm|exact Hc|constructor].
     - destruct (resolve_in U ins k) as [o|] eqn:Hr; [|apply IH; assumption].
-      pose proof (gen_file_spec cf ts memo u c ps sc o Hc Hm) as Hg. cbv zeta in Hg.
-      destruct (gen_file cf ts memo u c ps sc o) as [[[[m1 u1] c1] ps1] res]. cbn [fst snd] in Hg.
+      pose proof (gen_file_spec cf ts ins memo u c ps sc o Hc Hm) as Hg. cbv zeta in Hg.
+      destruct (gen_file cf ts ins memo u c ps sc o) as [[[[m1 u1] c1] ps1] res]. cbn [fst snd] in Hg.
       destruct Hg as (Hm1 & Hc1 & Hw).
       pose proof (IH m1 u1 c1 ps1 (sc ++ [k]) Hc1 Hm1) as Hi. cbv zeta in Hi.
       destruct (run_types cf ts ins m1 u1 c1 ps1 (sc ++ [k]) order) as [[[[[m2 u2] c2] ps2] sc2] es]. cbn [fst snd] in *.
@@ -306,8 +311,8 @@ Section RunThm.
     apply IH. exact (proj2 (select_transparent ts memo (obj_cls o) Hm)).
   Qed.
 
-  Notation op_step := (op_step U bases cname fuel sites stores rfacts render cfun maxsize true lel_shared).
-  Notation exec := (exec U bases cname fuel sites stores rfacts render cfun maxsize true lel_shared).
+  Notation op_step := (op_step U bases cname fuel sites stores rfacts reads render cfun maxsize true lel_shared).
+  Notation exec := (exec U bases cname fuel sites stores rfacts reads render cfun maxsize true lel_shared).
 
   (* invariant of the process state: the function memo and every generator's loader memo only hold true entries *)
   Definition pstate_ok (s : pstate) : Prop :=
@@ -349,7 +354,7 @@ Section RunThm.
     apply Forall_app. split; assumption.
   Qed.
 
-  Theorem log_entries_ok h : Forall entry_ok (log U bases cname fuel sites stores rfacts render cfun maxsize true lel_shared h).
+  Theorem log_entries_ok h : Forall entry_ok (log U bases cname fuel sites stores rfacts reads render cfun maxsize true lel_shared h).
   Proof. unfold log. apply exec_ok. split; constructor. Qed.
 End RunThm.
 
@@ -417,12 +422,14 @@ Section Indep.
   Variable rfacts : bool.
   Hypothesis Hsites : forallb site_ok sites = true.
   Hypothesis Hstores : forallb (store_ok rfacts) stores = true.
-  Variable render : ambient -> N -> option str -> tyobj -> prog.
-  Hypothesis render_pure : forall (a1 a2 : ambient) cf tmpl o, render a1 cf tmpl o = render a2 cf tmpl o.
+  Variable reads : list wread.
+  Hypothesis Hreads : forallb read_ok reads = true.
+  Variable render : ambient -> list (list N) -> N -> option str -> tyobj -> prog.
+  Hypothesis render_pure : forall (a1 a2 : ambient) I cf tmpl o, render a1 I cf tmpl o = render a2 I cf tmpl o.
   Variable cfun : ckey -> str.
 
-  Notation log := (log U bases cname fuel sites stores rfacts render cfun).
-  Notation entries_ok := (log_entries_ok U bases cname fuel rank Hsingle Hrank Hfuel sites stores rfacts Hsites Hstores render render_pure cfun).
+  Notation log := (log U bases cname fuel sites stores rfacts reads render cfun).
+  Notation entries_ok := (log_entries_ok U bases cname fuel rank Hsingle Hrank Hfuel sites stores rfacts Hsites Hstores reads Hreads render render_pure cfun).
 
   Theorem file_indep_lemma (lel_shared : bool) (m1 m2 : option nat) (h1 h2 : list op) (e1 e2 : entry) :
     In e1 (log m1 true lel_shared h1) ->
@@ -438,7 +445,7 @@ Section Indep.
     rewrite Hk in R1. pose proof (resolve_indep_lemma U _ _ _ _ _ _ _ R1 R2) as Ho.
     assert (E : (e_tmpl e1, e_text e1) = (e_tmpl e2, e_text e2)).
     { rewrite A1, A2 by (destruct Hside as [?|[? ?]]; auto).
-      rewrite !(alone_spec bases cname fuel rank Hsingle Hrank Hfuel sites stores rfacts Hsites Hstores render render_pure), Hc, Ht, Hp, Ho.
+      rewrite !(alone_spec bases cname fuel rank Hsingle Hrank Hfuel sites stores rfacts Hsites Hstores reads Hreads render render_pure), Hc, Ht, Hp, Ho.
       reflexivity. }
     injection E as E1 E2. split; assumption.
   Qed.
@@ -457,8 +464,8 @@ End Indep.
 (* ================= dry runs ================= *)
 (* generate_all(is_dryrun=True) writes nothing and leaves the unique-name generator, the memo tables and every line processor
    as they were (only the loader memo of that generator may grow -- which template_selection_lemma shows to be unobservable) *)
-Lemma dry_run_lemma U bases cname fuel sites stores rfacts render cfun maxsize resets lel s gid args order :
-  let r := op_step U bases cname fuel sites stores rfacts render cfun maxsize resets lel s (ORun gid args true order) in
+Lemma dry_run_lemma U bases cname fuel sites stores rfacts reads render cfun maxsize resets lel s gid args order :
+  let r := op_step U bases cname fuel sites stores rfacts reads render cfun maxsize resets lel s (ORun gid args true order) in
   snd r = [] /\ p_uniq (fst r) = p_uniq s /\ p_cache (fst r) = p_cache s /\ p_scratch (fst r) = p_scratch s /\
   map go_pps (p_gens (fst r)) = map go_pps (p_gens s).
 Proof.
@@ -510,17 +517,17 @@ Proof. vm_compute. split; reflexivity. Qed.
 
 (* the unrestricted statement is false of the model of the code as it is *)
 Theorem lel_leak_refuted_lemma :
-  exists (U : universe) (render : ambient -> N -> option str -> tyobj -> prog) (cfun : ckey -> str) (h1 h2 : list op) (e1 e2 : entry),
-    (forall a1 a2 cf t o, render a1 cf t o = render a2 cf t o) /\
-    In e1 (log U (ct_bases w_ct) (ct_name w_ct) 4 [] [] true render cfun None true true h1) /\
-    In e2 (log U (ct_bases w_ct) (ct_name w_ct) 4 [] [] true render cfun None true true h2) /\
+  exists (U : universe) (render : ambient -> list (list N) -> N -> option str -> tyobj -> prog) (cfun : ckey -> str) (h1 h2 : list op) (e1 e2 : entry),
+    (forall a1 a2 I cf t o, render a1 I cf t o = render a2 I cf t o) /\
+    In e1 (log U (ct_bases w_ct) (ct_name w_ct) 4 [] [] true [] render cfun None true true h1) /\
+    In e2 (log U (ct_bases w_ct) (ct_name w_ct) 4 [] [] true [] render cfun None true true h2) /\
     e_cfg e1 = e_cfg e2 /\ e_tset e1 = e_tset e2 /\ e_pps0 e1 = e_pps0 e2 /\ e_key e1 = e_key e2 /\ e_text e1 <> e_text e2.
 Proof.
   exists w_U, (table_render false w_tab), table_cfun, w_hist_whole, w_hist_subset.
   pose (d := {| e_cfg := 0; e_tset := []; e_pps0 := []; e_key := []; e_obj := TyObj [] 0 [] []; e_tmpl := None;
                 e_clean := true; e_text := [] |}).
-  exists (nth 1 (log w_U (ct_bases w_ct) (ct_name w_ct) 4 [] [] true (table_render false w_tab) table_cfun None true true w_hist_whole) d).
-  exists (nth 0 (log w_U (ct_bases w_ct) (ct_name w_ct) 4 [] [] true (table_render false w_tab) table_cfun None true true w_hist_subset) d).
+  exists (nth 1 (log w_U (ct_bases w_ct) (ct_name w_ct) 4 [] [] true [] (table_render false w_tab) table_cfun None true true w_hist_whole) d).
+  exists (nth 0 (log w_U (ct_bases w_ct) (ct_name w_ct) 4 [] [] true [] (table_render false w_tab) table_cfun None true true w_hist_subset) d).
   split; [reflexivity|].
   vm_compute. repeat split; try (right; left; reflexivity); try (left; reflexivity). discriminate.
 Qed.
